@@ -61,6 +61,9 @@ type qmFile struct {
 	done      bool
 }
 
+// qUncertain: see readiness in runW4Queue (one simulation at a time per process)
+var qUncertain func(*qmGroup, time.Time) bool
+
 type qmGroup struct {
 	name       string
 	tag        *TagCfg
@@ -156,24 +159,40 @@ func (s *Sim) runW4Queue() {
 		sort.SliceStable(cand, func(i, j int) bool { return lessF(g.tag.Order, cand[i], cand[j]) })
 		return cand[0]
 	}
-	ready := func(g *qmGroup, now time.Time) bool {
+	// readiness: 1 ready, 0 not ready, 2 undetermined. The statement speaks of
+	// a group's "only remaining file"; the queue withholds the LAST ENTRY of the
+	// group's list, and that list can still hold entries which are not files to
+	// send: files queued only to keep their place (placeholders) and the last
+	// completely emitted file, kept as the group's place marker. When the one
+	// remaining young file has such an entry behind it, the two readings differ;
+	// the model then makes no demand either way.
+	readiness := func(g *qmGroup, now time.Time) int {
 		h := headOf(g)
 		if h == nil || g.tag == nil {
-			return false
+			return 0
 		}
 		if g.tag.LastDelay > 0 {
 			n := 0
+			behind := false
 			for _, f := range g.pending {
-				if !f.done && !f.place {
+				switch {
+				case !f.done && !f.place:
 					n++
+				case lessF(g.tag.Order, h, f):
+					behind = true
 				}
 			}
 			if n == 1 && now.Sub(h.t) < g.tag.LastDelay {
-				return false
+				if behind {
+					return 2
+				}
+				return 0
 			}
 		}
-		return true
+		return 1
 	}
+	qUncertain = func(g *qmGroup, now time.Time) bool { return readiness(g, now) == 2 }
+	ready := func(g *qmGroup, now time.Time) bool { return readiness(g, now) == 1 }
 	refreshReady := func(now time.Time) {
 		for _, g := range groups {
 			if ready(g, now) {
@@ -303,7 +322,7 @@ func (s *Sim) judgePop(c sts.Sendable, groups map[string]*qmGroup, byName map[st
 			s.violate(prop, "lower-priority-first", "chunk of %s (group %q, priority %d) emitted while group %q (priority %d) had a chunk ready", c.GetName(), g.name, g.tag.Priority, o.name, o.tag.Priority)
 		}
 	}
-	if !ready(g, now) && !g.repushed {
+	if !ready(g, now) && !qUncertain(g, now) && !g.repushed {
 		s.violate(prop, "served-delayed-group", "chunk of %s emitted although its group's only remaining file is younger than the last-file delay", c.GetName())
 	}
 	// round robin among equal priority: a group that has been ready ever since
